@@ -29,7 +29,7 @@ ASSUMPTIONS = [
 ]
 BUDGET = {
     "quick": {"examples": 250, "workers": 8, "time_cap": 80},
-    "thorough": {"examples": 2500, "workers": 14, "time_cap": 1500},
+    "thorough": {"examples": 2500, "workers": 14, "time_cap": 900},
 }
 HERE = os.path.dirname(os.path.dirname(os.path.dirname(os.path.abspath(__file__))))
 NAMES = ["a", "b", "c.bin", "sub/d", "sub/e", "z"]
